@@ -35,7 +35,10 @@ Next == FALSE /\ UNCHANGED <<ti, vj>>
 Emit ==
   LET n == ToString((ti - 1) * 3 + vj)
       ty == Types[ti]
-      sig == [name |-> "hx" \o n, camel |-> "Hx" \o n, args |-> <<ty>>, retvoid |-> FALSE]
-      c == HostCase("x" \o n, <<SaX, EaX, EbX>>, sig, <<ValAt(ty, vj)>>)
+      \* the first value of every type: called by name; the second: through a function value; the third: through a function
+      \* value with a void parameter in front (void occupies no stack slot, the wrapper of the function value must know)
+      sig == [name |-> "hx" \o n, camel |-> "Hx" \o n, args |-> IF vj = 2 THEN <<TVoid, ty>> ELSE <<ty>>, retvoid |-> FALSE,
+              via |-> IF vj = 0 THEN "direct" ELSE "value"]
+      c == HostCase("x" \o n, <<SaX, EaX, EbX>>, sig, IF vj = 2 THEN <<HUnit, ValAt(ty, vj)>> ELSE <<ValAt(ty, vj)>>)
   IN JsonSerialize(IOEnv.OUTDIR \o "/" \o c.id \o ".json", c)
 =============================================================================
